@@ -2,9 +2,11 @@ package c16
 
 import (
 	"crypto/rand"
+	"encoding/json"
 	"fmt"
 	"io"
 	"net"
+	"os"
 	"testing"
 	"testing/synctest"
 
@@ -47,6 +49,16 @@ func TestC16IDClash(t *testing.T) {
 		{"two-allocations-of-two-users", "c2", []string{"A", "A"}},
 		{"two-allocations-of-two-users-other-peer", "c2", []string{"A", "B"}},
 		{"two-allocations-of-one-user", "c3", []string{"A", "B"}},
+	}
+	if rep.ReplayPath() != "" {
+		// replay: only the recorded case; the verdict is printed
+		var doc struct {
+			Case cas `json:"case"`
+		}
+		if b, err := os.ReadFile(rep.ReplayPath()); err == nil && json.Unmarshal(b, &doc) == nil && doc.Case.Name != "" {
+			cases = []cas{doc.Case}
+		}
+		defer func() { fmt.Printf("replayed %+v: %d violation(s) %v\n", cases, len(r.Violations), r.Violations) }()
 	}
 	for _, c := range cases {
 		var fatal string
